@@ -138,6 +138,18 @@ theorem invalid_value_changes_none_option : ¬ invalid_rejected_unchanged_statem
 example : entries (Text.Config.set true [⟨0, .opt (.uint (2 ^ 64 - 1)), .none, []⟩] 0 "abc".toList).1
     = [(0, none)] := by decide
 
+/-- **`datafusion.explain.analyze_categories`**: every value the option can hold without adjacent
+    duplicates among `All`, `Only([])` and `Only(l)` for all 64 ordered selections of distinct
+    categories (so all 16 subsets, in every order) is reported as a text that parses back to exactly
+    that value — in particular the full list does NOT collapse to `All`.  By evaluation of the whole table. -/
+theorem categories_roundtrip : ∀ v ∈ allCats, parseCats (showCats v) = some v := by decide
+
+example : allCats.length = 66 := by decide
+example : showCats (.only [0, 1, 2, 3]) = "rows,bytes,timing,uncategorized".toList := by decide
+-- what `dedup` does to a held value with adjacent duplicates: its text parses to a different list
+example : parseCats (showCats (.only [0, 0])) = some (.only [0]) := by decide
+example : parseCats " Rows , BYTES,rows ".toList = some (.only [0, 1, 0]) ∧ parseCats "rows,".toList = none := by decide
+
 /-! ### non-vacuity -/
 
 example : showNat 1234 = "1234".toList := by
